@@ -91,6 +91,52 @@ claim("C10", "proof",
       "field meanings assumed; 'nothing but blank lines between items changes' is a 2-run relation explored only in the bounded layer.",
       "contract-based deductive verification: AST->VC generation over a heap model + z3; static read/write sets; bounded "
       "option-on/off differential", "DESIGN.md §3 C10")
-for _p in ["C01", "C02", "C03", "C04", "C06", "C08", "C09", "C12",
-           "C17", "C18"]:
+_PIPE_NOTE = ("No contract within reach characterises how a text re-parses (Marko's parser is a dependency): the statement "
+              "itself is explored only under the stated bound; the discharged obligations carry the mechanisms the property names.")
+claim("C01", "other",
+      "Mechanism contracts discharged without bound: wrap_paragraph_lines alters a word only by the protective backslash and "
+      "only at the start of a wrapped line; the hard-break wrapper keeps number and order of hard breaks and rejoins with "
+      "backslash-newline; line_wrap_* compose hard-break and tag handling in the documented order; heap-model frame of the "
+      "cleanup rewrite. The statement parse(format(x)) ~ parse(x) is explored on a generated document space with flowmark's "
+      "own parser as reader; nine defects found this way were repaired (fix: commits), eight are recorded known findings "
+      "whose witnesses are replayed on every run.", _PIPE_NOTE,
+      "contract-based deductive verification of the wrapping mechanisms (AST->VC + z3); bounded re-parse equivalence as stand-in",
+      "DESIGN.md §3 C01")
+claim("C02", "other",
+      "Discharged: greedy fill / sentence split produce lines that are joins of spans of the token sequence (hence a function "
+      "of the tokens), fill_markdown strips/dedents its input and re-attaches frontmatter verbatim, split_frontmatter returns "
+      "the block it is given back, fill_text joins wrapped paragraphs with blank lines. format(format(x)) == format(x) itself is "
+      "explored over the document space x option bits x plaintext.", _PIPE_NOTE,
+      "contract-based deductive verification of the components (AST->VC + z3); bounded two-pass exploration as stand-in",
+      "DESIGN.md §3 C02")
+claim("C03", "other",
+      "Discharged: wrap_paragraph_lines and split_sentences_regex depend on the text only through the whitespace-collapsed "
+      "token sequence; the sentence wrapper's no-wrap branch collapses whitespace runs (a defect found by this clause was "
+      "repaired). Re-layout invariance and the two-pass relation are explored on the document space.", _PIPE_NOTE,
+      "contract-based deductive verification of the wrappers (AST->VC + z3); bounded re-layout / two-pass exploration as stand-in",
+      "DESIGN.md §3 C03")
+claim("C04", "other",
+      "Discharged: fill_markdown applies cleanups / smart quotes / ellipses only through doc_cleanups, "
+      "rewrite_text_across_inlines(smart_quotes) and rewrite_text_content(ellipses, coalesce_lines=True), each guarded by its own "
+      "option, in that order, between parse and render (pipeline clause). The literal-span sequence comparison is the bounded "
+      "layer; two defects found by it (code re-split at Unicode separators, blank line inserted inside fenced code) were repaired.",
+      _PIPE_NOTE + " _render_code, render_code_span and the rewrite functions are not yet under character-level contracts.",
+      "contract-based deductive verification of the wiring (AST->VC + z3); bounded literal-span comparison as stand-in",
+      "DESIGN.md §3 C04")
+claim("C06", "other",
+      "Discharged: every output line of the wrappers is a join of whole tokens of the splitter (W lossless clauses), so a token "
+      "is never broken; the line wrappers apply tag-newline handling inside hard-break handling. Atomicity of constructs, spacing "
+      "and tag-line layout are explored on paragraphs with tags at widths 1..20 and tag-delimited blocks.",
+      _PIPE_NOTE + " The atomic-construct regexes are uninterpreted; tag_handling's segmentation is not yet under contract.",
+      "contract-based deductive verification of token-preserving wrapping (AST->VC + z3); bounded atomicity exploration as stand-in",
+      "DESIGN.md §3 C06")
+claim("C12", "other",
+      "Discharged: every subscript-in-range, not-None, assert and pop-from-non-empty obligation and every loop variant of the "
+      "functions of the formatting path that are under contract (wrap_paragraph_lines, split_sentences_regex, the sentence and "
+      "hard-break wrappers, fill_text, split_frontmatter, list rendering); render_list_item's separator carries no trailing "
+      "blanks. Termination/time of Marko and the regex engines and well-formedness of whole outputs are explored under a "
+      "watchdog on Unicode soup and pumped families.", _PIPE_NOTE,
+      "contract-based deductive verification: no-raise and variant obligations (AST->VC + z3); bounded fuzzing under a watchdog as stand-in",
+      "DESIGN.md §3 C12")
+for _p in ["C08", "C09", "C17", "C18"]:
     NOT_APPLICABLE[_p] = "check not built yet in this round (planned in DESIGN.md §3); nothing is claimed"
